@@ -754,6 +754,8 @@ pub fn collect(tcx: TyCtxt<'_>) -> J {
         ];
         if matches!(kind, DefKind::Fn | DefKind::AssocFn) {
             v.push(("public", J::Bool(tcx.visibility(did).is_public())));
+            // nameable from outside the crate (a `pub fn` in a private module is not)
+            v.push(("exported", J::Bool(tcx.effective_visibilities(()).is_reachable(ld))));
             let sig = tcx.fn_sig(did).instantiate_identity().skip_norm_wip().skip_binder();
             v.push(("inputs", J::Arr(sig.inputs().iter().map(|t| ty_j(tcx, *t)).collect())));
             v.push(("output", ty_j(tcx, sig.output())));
